@@ -127,11 +127,11 @@ class Gen:
             right = rng.choice([N(2), N(4), N(-2), N(1, 2)])  # dyadic divisors keep values exact
         else:
             right = self.expr(depth - 1, extra)
-        if op == "*" and (left == N(0) or right == N(0)):
+        if op == "*":
             # multiplication by a literal zero folds the whole term away in the simplifier
             if left == N(0):
                 left = N(2)
-            else:
+            if right == N(0):
                 right = N(2)
         if left == right:
             # x - x, x / x: folded to a constant by the symbolic simplifier (C13's territory)
